@@ -123,7 +123,8 @@ def large_carrier_case(draw):
             if form == "pyfloat":
                 val = {"t": "pyfloat", "v": f}
             elif form == "np":
-                val = {"t": "np", "dtype": "float64", "v": f}
+                # (numpy.float64 is a Python float as well; the other widths are not)
+                val = {"t": "np", "dtype": draw(st.sampled_from(["float64", "float32", "longdouble", "longdouble"])), "v": f}
             elif form in ("list", "array"):
                 n = draw(st.sampled_from([1, 2]))
                 val = {"t": form, "dtype": "float64", "shape": [n], "v": [f, 0.5][:n]}
@@ -315,7 +316,7 @@ def check_case(case, ctx):
     # not wrap around on the way, so those cases stay in)
     def float_valued(v):
         return bool(v) and (v["t"] in ("pyfloat", "pycomplex") or
-                            (v["t"] in ("np", "array", "list") and str(v.get("dtype", "")).startswith(("float", "complex"))) or
+                            (v["t"] in ("np", "array", "list") and str(v.get("dtype", "")).startswith(("float", "complex", "longdouble"))) or
                             (v["t"] == "poly" and v["desc"]["kind"] in ("f", "c")))
 
     # (polynomial-valued arguments: only when each of them has float coefficients and every name is supplied -
@@ -324,7 +325,9 @@ def check_case(case, ctx):
     poly_args_float = all(float_valued(s["val"]) for s in case["spec"] if s["val"] and s["val"]["t"] == "poly")
     float_result = (full_numeric or (all_supplied and any_poly_arg and poly_args_float)) and (
         case["poly"]["kind"] in ("f", "c") or any(float_valued(s["val"]) for s in case["spec"]))
-    if bound >= (1e150 if float_result else 2 ** 62):
+    single = any(s["val"] and s["val"].get("dtype") in ("float32", "complex64") for s in case["spec"])
+    # (next to a single-precision carrier Python numbers adapt to it: its range and precision apply)
+    if bound >= ((1e36 if single else 1e150) if float_result else 2 ** 62):
         ctx.discard_case("magnitude-bound")
         return []
     # also bound every intermediate power of an argument
@@ -356,6 +359,8 @@ def check_case(case, ctx):
                 return fail("malformed:" + what, str(err))
         else:
             arr = numpy.asarray(res)
+            if arr.dtype in (numpy.dtype("longdouble"), numpy.dtype("clongdouble")):
+                arr = arr.astype(complex if arr.dtype.kind == "c" else float)  # (the model reads doubles)
             if arr.dtype == object or arr.dtype.names:
                 return fail("type:" + what, "result array has dtype %s" % arr.dtype)
             got = numpy.empty(arr.shape, dtype=object)
@@ -379,7 +384,7 @@ def check_case(case, ctx):
             return fail("shape:" + what, "shape %s, expected poly.shape + broadcast(args) = %s"
                         % (got.shape, exp_shape))
         for idx in numpy.ndindex(*exp_shape):
-            if not mp_close(got[idx], expected[idx], 1e-9, bound):
+            if not mp_close(got[idx], expected[idx], 1e-5 if (single and float_result) else 1e-9, bound):
                 return fail("value:" + what, "at %s got %r expected %r" % (idx, got[idx], expected[idx]))
         return None
 
@@ -404,7 +409,7 @@ def check_case(case, ctx):
             scal[n] = e
         float_typed = {n for n, sp in zip(names, case["spec"])
                        if sp["val"] and (sp["val"]["t"] in ("pyfloat", "pycomplex") or
-                                         str(sp["val"].get("dtype", "")).startswith(("float", "complex")))}
+                                         str(sp["val"].get("dtype", "")).startswith(("float", "complex", "longdouble")))}
         # (an argument that came as a float or complex number stays one: it decides that the result is inexact)
         ints = [n for n in names if isinstance(scal[n], int) and n not in float_typed]
         if ints and all(isinstance(v, (int,)) or not isinstance(v, GQ) for v in scal.values()):
